@@ -5,6 +5,7 @@ package state
 import (
 	"github.com/hashicorp/consul/agent/netutil"
 	"github.com/hashicorp/consul/agent/structs"
+	"github.com/hashicorp/consul/api"
 	"github.com/hashicorp/consul/internal/verifrt"
 )
 
@@ -94,7 +95,7 @@ func VerifC07_Topology() {
 	}
 	vTopologyInvariants(s, "C07.topology.pre")
 
-	op := verifrt.Choice("op", 6)
+	op := verifrt.Choice("op", 7)
 	switch op {
 	case 0:
 		must(s.DeleteService(next(), "n1", "p1", nil, ""))
@@ -111,8 +112,17 @@ func VerifC07_Topology() {
 		must(s.DeleteNode(next(), "n1", nil, ""))
 	case 5: // the same sidecar id registered on the other node as well
 		must(s.EnsureService(next(), "n2", vSidecar("p1", "web", vUpstreamChoice("p1.other-node-upstreams")...)))
+	case 6: // a transaction that deregisters p1 fails and is rolled back; p1 is deregistered for real afterwards
+		_, errs := s.TxnRW(next(), structs.TxnOps{
+			{Service: &structs.TxnServiceOp{Verb: api.ServiceDelete, Node: "n1", Service: structs.NodeService{ID: "p1"}}},
+			{KV: &structs.TxnKVOp{Verb: api.KVCheckNotExists, DirEnt: structs.DirEntry{Key: "no-such-key-exists", Session: ""}}},
+			{KV: &structs.TxnKVOp{Verb: api.KVCheckIndex, DirEnt: structs.DirEntry{Key: "no-such-key", RaftIndex: structs.RaftIndex{ModifyIndex: 7}}}},
+		})
+		verifrt.Assume(len(errs) > 0)
+		vTopologyInvariants(s, "C07.topology.after-failed-transaction")
+		must(s.DeleteService(next(), "n1", "p1", nil, ""))
 	}
-	name := []string{"delete-p1", "delete-p2", "p1-new-upstreams", "p1-new-destination", "delete-node", "same-id-other-node"}[op]
+	name := []string{"delete-p1", "delete-p2", "p1-new-upstreams", "p1-new-destination", "delete-node", "same-id-other-node", "failed-txn-then-delete-p1"}[op]
 	vTopologyInvariants(s, "C07.topology."+name)
 	verifrt.Reached("end")
 }
